@@ -219,10 +219,10 @@ int KSI_base32Encode(const unsigned char *data, size_t data_len, size_t group_le
 
 	/* Pad output. */
 	while (bits_read % 40 != 0) {
-		tmp[ret_len++] = '=';
-		if (ret_len % (group_len + 1) == group_len && bits_read % 40 != 35) {
+		if (group_len > 0 && ret_len % (group_len + 1) == group_len) {
 			tmp[ret_len++] = '-';
 		}
+		tmp[ret_len++] = '=';
 		bits_read += 5;
 	}
 
